@@ -38,13 +38,13 @@ fn call(acc: &str, d: u32, t: u32) -> Result<Value, String> {
             let mut b = vec![0u8; 28];
             b[18..20].copy_from_slice(&(d as u16).to_be_bytes());
             b[20..24].copy_from_slice(&t.to_be_bytes());
-            fields(decode_message_header(&mut b.as_slice()).expect("hdr").date_time())
+            fields((if dribbled(&b) { decode_message_header(&mut Dribble::new(&b)) } else { decode_message_header(&mut b.as_slice()) }).expect("hdr").date_time())
         }
         "drd_header" | "radial_timestamp" => {
             let mut b = vec![0u8; 32];
             b[4..8].copy_from_slice(&t.to_be_bytes());
             b[8..10].copy_from_slice(&(d as u16).to_be_bytes());
-            let m = decode_digital_radar_data(&mut Cursor::new(&b)).expect("drd");
+            let m = (if dribbled(&b) { decode_digital_radar_data(&mut Dribble::new(&b)) } else { decode_digital_radar_data(&mut Cursor::new(&b)) }).expect("drd");
             if acc == "drd_header" { fields(m.header.date_time()) } else { ts_fields(m.radial().ok().map(|r| r.collection_timestamp())) }
         }
         "volume_header" => {
@@ -52,21 +52,21 @@ fn call(acc: &str, d: u32, t: u32) -> Result<Value, String> {
             b[..9].copy_from_slice(b"AR2V0006.");
             b[12..16].copy_from_slice(&d.to_be_bytes());
             b[16..20].copy_from_slice(&t.to_be_bytes());
-            fields(nexrad_data::volume::Header::deserialize(&mut b.as_slice()).expect("vol").date_time())
+            fields((if dribbled(&b) { nexrad_data::volume::Header::deserialize(&mut Dribble::new(&b)) } else { nexrad_data::volume::Header::deserialize(&mut b.as_slice()) }).expect("vol").date_time())
         }
         "rda_bypass_map" | "rda_clutter_filter_map" => {
             let mut b = vec![0u8; 120];
             let off = if acc == "rda_bypass_map" { 36 } else { 40 };
             b[off..off + 2].copy_from_slice(&(d as u16).to_be_bytes());
             b[off + 2..off + 4].copy_from_slice(&(t as u16).to_be_bytes());
-            let m = decode_rda_status_message(&mut b.as_slice()).expect("rda");
+            let m = (if dribbled(&b) { decode_rda_status_message(&mut Dribble::new(&b)) } else { decode_rda_status_message(&mut b.as_slice()) }).expect("rda");
             fields(if acc == "rda_bypass_map" { m.bypass_map_generation_date_time() } else { m.clutter_filter_map_generation_date_time() })
         }
         "cfm_header" => {
             let mut b = vec![0u8; 6];
             b[0..2].copy_from_slice(&(d as u16).to_be_bytes());
             b[2..4].copy_from_slice(&(t as u16).to_be_bytes());
-            fields(decode_clutter_filter_map(&mut b.as_slice()).expect("cfm").header.date_time())
+            fields((if dribbled(&b) { decode_clutter_filter_map(&mut Dribble::new(&b)) } else { decode_clutter_filter_map(&mut b.as_slice()) }).expect("cfm").header.date_time())
         }
         _ => json!({}),
     })
@@ -105,6 +105,9 @@ pub fn run(args: &Args) {
         emit(acc, "ms", 0, 0, false, &mut tr, &mut res);
     }
     for d in [65536u32, 65537, 100_000_000, 2_147_483_648, u32::MAX] { for t in [0u32, 86_399_999, u32::MAX] { emit("volume_header", "ms", d, t, false, &mut tr, &mut res); } }
+    // the date word of the volume header is 32 bits wide: the neighbourhood of the last day a calendar library can represent
+    // (day 95,026,237 after the epoch is 31 Dec of year 262142) with times of day on both sides of 24 h
+    for d in 95_026_100u32..=95_026_300 { for t in [0u32, 86_399_999, 86_400_000, 172_800_000, u32::MAX] { emit("volume_header", "ms", d, t, false, &mut tr, &mut res); } }
     for acc in min_acc { for m in [1440u32, 1441, 32767, 32768, 65535] { for d in [0u32, 1, 65535] { emit(acc, "min", d, m, false, &mut tr, &mut res); } } emit(acc, "min", 0, 0, false, &mut tr, &mut res); }
     res.sample(json!({"accessors": ms_acc.iter().chain(min_acc.iter()).collect::<Vec<_>>(), "example": call("message_header", 19783, 45_296_789).unwrap_or(json!(null))}));
     tr.finish();
